@@ -659,6 +659,14 @@ func c12Fixed() [][]c12Cmd {
 		{b(false, false, "rootA", "signA", 1, 2, t0), w(false, true), r(false, false, "signA", 0, t0+day), r(false, false, "signA", 0, t0+2*day)},
 		// keep_going and a rotated key named like the root
 		{b(false, false, "rootA", "signA", 1, 2, t0), r(false, true, "rootA", 1, t0+day), r(false, false, "signA", 0, t0+2*day)},
+		// the same object with --overwrite (the root's certificate object is recorded for the root key version)
+		{b(false, false, "rootA", "signA", 1, 2, t0), r(true, false, "rootA", 1, t0+day), r(false, false, "signA", 0, t0+2*day)},
+		// a leftover object and keep_going: a bootstrap whose two certificates share one object name is refused at the
+		// second upload and leaves the first one's object behind unrecorded (which of the two is Go map order; the object
+		// is never recorded, so it does not matter); after the keys are wiped, a bootstrap with keep_going whose signing
+		// certificate gets that object's name must not record it
+		{b(false, false, "same", "same", 5, 5, t0), w(false, true), b(false, true, "rootB", "same", 1, 5, t0+day), r(false, false, "same", 0, t0+2*day),
+			b(true, false, "rootB", "same", 1, 5, t0+3*day), r(false, false, "same", 0, t0+4*day)},
 	}
 }
 
@@ -805,6 +813,28 @@ func c12RunHistory(which int, h []c12Cmd, seed uint64, seq bool) (res c12Result)
 				}
 			}
 		}
+		// --- a certificate newly recorded by this command was made by this command (no entry without its upload):
+		//     certificates are signed with fresh randomness, so bytes that were already stored before the command
+		//     are not this command's
+		if c.kind != 'w' {
+			var ppaths []string
+			for p := range prev.objects {
+				ppaths = append(ppaths, p)
+			}
+			sort.Strings(ppaths)
+			for _, n := range cur.names {
+				cert := cur.certs[n]
+				if cert == nil || c12Has(prev.names, n) {
+					continue
+				}
+				for _, p := range ppaths {
+					if bytes.Equal(prev.objects[p], cert.Raw) {
+						find("c12/"+c.kindName()+"/entry-without-upload", fmt.Sprintf("the entry newly recorded for %s serves the certificate object %s, "+
+							"which existed with these bytes before the command: recorded without an upload", n, p), k)
+					}
+				}
+			}
+		}
 		// --- serial succession
 		if c.kind == 'r' && ok && c.signSerial == nil && !c.kg {
 			pc, nc := prev.certs[prev.ps], cur.certs[cur.ps]
@@ -854,7 +884,9 @@ func c12RunHistory(which int, h []c12Cmd, seed uint64, seq bool) (res c12Result)
 			sort.Strings(paths)
 			for _, p := range paths {
 				if nb, ok := cur.objects[p]; !ok || !bytes.Equal(nb, prev.objects[p]) {
-					if tainted {
+					if tainted && st.caName() == "memca" {
+						// known finding C12-K4 is about memca (no overwrite check of its own); gcsca never changes an
+						// existing object without overwrite, in any history (theorem C12_no_clobber)
 						find("c12/rebootstrap/clobber-without-overwrite", "an existing certificate object changed although overwrite was not given ("+st.caName()+")", k)
 					} else {
 						find("c12/"+class+"/no-clobber/"+st.caName(), "an existing certificate object changed although overwrite was not given: "+p, k)
